@@ -85,6 +85,35 @@ class Never:
         return False
 
 
+class EqRaises:
+    def __eq__(self, other):
+        raise TypeError('cannot compare')
+
+
+class Ambiguous:
+    def __bool__(self):
+        raise ValueError('the truth value is ambiguous')
+
+
+class EqArray:
+    """element-wise comparison, as an array type does: the result of == is not a bool"""
+    def __init__(self):
+        self.data = [1, 2]
+
+    def __eq__(self, other):
+        return Ambiguous()
+
+
+class EqAlways:
+    def __eq__(self, other):
+        return True
+
+
+class NaNLike:
+    def __eq__(self, other):
+        return False
+
+
 class Trap:
     def __init__(self):
         self._Trapdoor = 'not private'
@@ -131,7 +160,7 @@ class LibObj:
 
 SCALARS = ['0', '5', '-3', '10 ** 20', '255', '256', '257', '1.5', '-0.0', "float('inf')", 'True', 'False', 'None',
            "''", "'abc'", "'h\\u00e9\\U0001F600'", "'quote\\'s \"x\"'", "'line1\\nline2'", "'ab' * 600",
-           "'x' * 1024", "'x' * 1025", "b'ab\\x00'", "'\\u4e2d\\u6587'", '3 + 4j']
+           "'x' * 1024", "'x' * 1025", "b'ab\\x00'", "'\\u4e2d\\u6587'", '3 + 4j', "float('nan')"]
 
 
 def scalar(rng):
@@ -189,7 +218,8 @@ def container(rng):
 def obj(rng):
     return rng.choice(['Plain()', 'Plain(%d)' % rng.randint(2, 9), 'Priv()', 'Child()', 'Slotted()',
                        "WithStr('w')", 'Outer.Inner()', 'Outer()', 'MyList([1, 2])', "MyDict(a=1)",
-                       'make_local_class()', 'B.LibObj()', 'Node(1)', 'object()', 'Trap()', 'EmptyBox()', 'Never()'])
+                       'make_local_class()', 'B.LibObj()', 'Node(1)', 'object()', 'Trap()', 'EmptyBox()', 'Never()',
+                       'EqRaises()', 'EqArray()', 'EqAlways()', 'NaNLike()', 'EqRaises()', 'EqArray()'])
 
 
 def exc(rng):
